@@ -254,7 +254,18 @@ func (e *Exec) concretizeInt(t *Term, why string) int {
 				e.model = m
 				cv = e.tb.Eval(t, m, map[int]*Term{})
 				if cv == nil || !cv.Const {
-					e.ooe("cannot concretise %s (%s)", e.tb.Show(t), why)
+					// the term is not evaluable from the variable model alone (it contains
+					// an uninterpreted function): name it and ask the solver for its value
+					aux := e.newVar("conc", t.S)
+					e.addPC(e.tb.mk("=", SBool, aux, t))
+					res, m = e.query(e.tb.True)
+					if res == "sat" {
+						e.model = nil // the variable model does not determine UF terms
+						cv = m[aux.Name]
+					}
+					if cv == nil || !cv.Const {
+						e.ooe("cannot concretise %s (%s)", e.tb.Show(t), why)
+					}
 				}
 			}
 			v, _ = e.concInt(cv, ni)
@@ -550,6 +561,11 @@ func (e *Exec) resetPath(j *job) {
 	e.clockLast = nil
 	e.clockMono = false
 	e.clockFirst, e.clockSpan = nil, nil
+	e.fs = nil
+	e.crcBuf = nil
+	e.largeAlloc = 0
+	e.clockFixed = nil
+	e.locks = nil
 	e.clockN = 0
 	e.obs = nil
 	e.reached = map[string]bool{}
